@@ -268,6 +268,8 @@ def run_pcm(case):
         orders = []
     res['sizer_in'] = rec.get('w')
     res['target'] = rec.get('t')
+    res['universe_after'] = list(uni.get_assets(t))
+    res['alpha_after'] = [a for a in alpha(t)]
     res['alloc'] = [[k, float(v)] for k, v in stats['target_allocations'][0].items() if k != 'Date'] if stats['target_allocations'] else None
     res['alloc_date'] = secs(stats['target_allocations'][0]['Date']) if stats['target_allocations'] else None
     if res['out'] == 'ok':
@@ -630,6 +632,10 @@ def oracle_c19(case, real):
             out.append(dict(what='equal weights %r do not sum to the scale %r' % (real['weights'], case['scale']), key='eqw-values'))
         if real['fixed'] != [[a, float(w)] for a, w in case['weights']]:
             out.append(dict(what='fixed-weight optimiser changed its input', key='fixed-weight'))
+    elif case['kind'] == 'pcm' and real.get('universe_after') is not None and (
+            real['universe_after'] != real['universe'] or real['alpha_after'] != [a for a, w in real['alpha']]):
+        out.append(dict(what='the universe answers %r after a portfolio-construction call, %r before it (alpha keys %r -> %r)' % (
+            real['universe_after'], real['universe'], [a for a, w in real['alpha']], real['alpha_after']), key='universe-changed-by-construction'))
     elif case['kind'] == 'pcm' and 'dynamic' in case['universe'] and 'single' in case['alpha'] and not case['fills']:
         entered = set(a for a, e in case['universe']['dynamic'] if e is not None and e <= case['t'])
         if real['alloc'] is not None:
